@@ -229,6 +229,18 @@ PROPS["C16"] = dict(
     assumptions=["a non-OK status is returned before anything is proposed (checked by reading the table back)"],
 )
 
+PROPS["C17"] = dict(
+    title="Protected endpoints reject callers lacking the right token or certificate",
+    design_ref="DESIGN.md section 7 (C17)",
+    run_files=["Run/C17Run.v"],
+    engines=[dict(cmd=["c17"], corr="Model.Auth.{auth_func,intercept,server_config,verify_peer,accepts} <-> cmd.authFunc + auth interceptor wiring (cmd.createAPIServer), security.TLSInfo.ServerConfig", timeout=900)],
+    level_text="Theorems about regatta's decision logic: with a token configured a call passes only with the header '<bearer, any case> <exactly the token>' (every other string, prefix/suffix/case variants included, is refused), services without an override are unaffected, a trusted CA or client-cert-auth makes verified client certificates mandatory, CN/hostname options are exclusive, and acceptance implies a chain to the CA and exactly the allowed CN (resp. hostname validity) on the leaf of the first verified chain. A real API server built by cmd.createAPIServer is called over loopback on every method of the protected services (from the generated descriptors) with 15 header variants, and real TLS handshakes run against TLSInfo.ServerConfig() with harness-minted certificates over all option combinations; both compared with the model.",
+    level_note="PARTIAL: chain verification and hostname matching are crypto/tls and crypto/x509 (inputs of the modelled decision, observed in real handshakes, not proved); the go-grpc-middleware interceptor is modelled from its source.",
+    technique="Coq proof (string-splitting lemma for the bearer header, case analysis of the TLS option decision) + enumerated differential check against a real gRPC server and real TLS handshakes",
+    trusted=["Model/Auth.v hand-written model of cmd.authFunc, the auth interceptor and security/tls.go"],
+    assumptions=["crypto/tls verifies chains against ClientCAs and calls VerifyPeerCertificate with the verified chains", "ASCII scheme names (EqualFold)"],
+)
+
 # Properties not (yet) claimed, each with a reason; kept current as checks are added.
 _PENDING = "check not built yet in this development; will be claimed once its model, theorems and correspondence harness exist"
 NOT_APPLICABLE = [dict(property_id="C%02d" % i, reason=_PENDING) for i in range(1, 20) if "C%02d" % i not in PROPS]
